@@ -120,7 +120,48 @@ pub fn check_bytes(prop: Prop, cfg: &'static dyn Config, bytes: &[u8], nt: NonTr
         };
     }
     let obs = cfg.parse_msg(bytes);
-    judge(prop, bytes, &obs, nt, rec)
+    let v = judge(prop, bytes, &obs, nt, rec);
+    if matches!(v, Verdict::Pass) && (prop == Prop::C11 || prop == Prop::C04) && bytes.len() >= 21 && matches!(bytes[0] >> 2, 1..=3) {
+        return rate_of_turn_value(cfg, bytes);
+    }
+    v
+}
+
+/// "present with the transmitted value": the rate of turn is only observable through its public
+/// accessors. Reference (M.1371 / the crate's documented formula): raw in -126..=126 gives
+/// (raw / 4.733)^2 degrees per minute, +-127 give no rate; the sign gives the direction.
+fn rate_of_turn_value(cfg: &'static dyn Config, bytes: &[u8]) -> Verdict {
+    let raw = layout::signed(layout::get_bits(bytes, 42, 8), 8);
+    let got = match cfg.rot_probe(bytes) {
+        Some(g) => g,
+        None => return Verdict::Pass, // not decoded as a position report: judged elsewhere
+    };
+    if raw == -128 {
+        return match got {
+            None => Verdict::Pass,
+            Some(x) => Verdict::fail("rate_of_turn absent for raw -128", format!("{:?}", x)),
+        };
+    }
+    let (rate, dir) = match got {
+        Some(x) => x,
+        None => return Verdict::fail(format!("rate_of_turn present for raw {}", raw), "None"),
+    };
+    let want_dir = if raw == 0 { "None" } else if raw > 0 { "Some(Starboard)" } else { "Some(Port)" };
+    if dir != want_dir {
+        return Verdict::fail(format!("rate_of_turn.direction() = {} for raw {}", want_dir, raw), dir);
+    }
+    if raw.abs() == 127 {
+        if rate.is_some() {
+            return Verdict::fail(format!("rate_of_turn.rate() = None for raw {} (turning faster than the scale)", raw), format!("{:?}", rate));
+        }
+    } else {
+        let exact = (raw as f64 / 4.733) * (raw as f64 / 4.733);
+        match rate {
+            Some(r) if ((r as f64) - exact).abs() <= 4.0 * layout::ulp_f32(exact) + 1e-12 => {}
+            other => return Verdict::fail(format!("rate_of_turn.rate() = Some({:.6}) for raw {}", exact, raw), format!("{:?}", other)),
+        }
+    }
+    Verdict::Pass
 }
 
 /// The long way round: armoured characters -> sentence(s) -> `AisParser::parse(.., true)`;
